@@ -18,7 +18,6 @@ import GeoProofs.Lemmas.C02QWinding
 import GeoProofs.Lemmas.C02QHoles
 import GeoProofs.Lemmas.C02QPerturb
 import GeoProofs.Lemmas.WINDHoles
-import GeoProofs.Lemmas.C02XPoint
 import GeoProofs.Lemmas.C02XTable
 
 namespace Geo.Proofs.C02
@@ -966,6 +965,142 @@ example : withinM (.point ⟨5, 5⟩) (.multiPolygon [⟨[⟨0, 0⟩, ⟨4, 0⟩
     Gen.isWithin (relateSpec (.point ⟨5, 5⟩) (.multiPolygon [⟨[⟨0, 0⟩, ⟨4, 0⟩, ⟨4, 4⟩, ⟨0, 4⟩, ⟨0, 0⟩], []⟩,
       ⟨[⟨4, 4⟩, ⟨8, 4⟩, ⟨8, 8⟩, ⟨4, 8⟩, ⟨4, 4⟩], []⟩])) :=
   withinM_point_geom _ _ (by decide +kernel)
+
+/-! ### C02X (continued): the segment-against-area kernels as point-set statements; every pair with an operand without
+areal members; the shortcut of `Polygon × Polygon`; `contains` through `relate` -/
+
+/-- [T] `Polygon: Intersects<Line>` (ring tests, then `coordinate_position` of the two end points) for a polygon of the
+validity domain: true exactly when the segment has a point in the polygon (interior ∪ boundary) — if the segment misses
+every ring, the winding numbers are constant along it. -/
+theorem polyLine_iff_point_set (q : Poly) (hd : inDomain (.polygon q) = true) (x y : Pt) :
+    polyLine q x y = true ↔ ∃ p, Geo.Proofs.Kernel.SegMem p x y ∧ locate (.polygon q) p ≠ .outside :=
+  Geo.Proofs.C02X.polyLine_dom q hd x y
+
+example : polyLine ⟨[⟨0, 0⟩, ⟨10, 0⟩, ⟨10, 10⟩, ⟨0, 10⟩, ⟨0, 0⟩], [[⟨2, 2⟩, ⟨8, 2⟩, ⟨8, 8⟩, ⟨2, 8⟩, ⟨2, 2⟩]]⟩ ⟨3, 3⟩ ⟨1, 1⟩ = true :=
+  (polyLine_iff_point_set _ (by decide +kernel) _ _).mpr
+    ⟨⟨1, 1⟩, ⟨1, by norm_num, by norm_num, by norm_num, by norm_num⟩, by decide +kernel⟩
+
+/-- [T] `Rect: Intersects<Line>` (two corner tests, four side tests), Rect of positive width and height. -/
+theorem rectLine_iff_point_set (mn mx x y : Pt) (hx : mn.x < mx.x) (hy : mn.y < mx.y) :
+    rectLine mn mx x y = true ↔ ∃ p, Geo.Proofs.Kernel.SegMem p x y ∧ locate (.rect mn mx) p ≠ .outside :=
+  Geo.Proofs.C02X.rectLine_iff mn mx x y hx hy
+
+example : rectLine ⟨0, 0⟩ ⟨2, 2⟩ ⟨-1, 1⟩ ⟨3, 1⟩ = true :=
+  (rectLine_iff_point_set _ _ _ _ (by norm_num) (by norm_num)).mpr
+    ⟨⟨1, 1⟩, ⟨1 / 2, by norm_num, by norm_num, by norm_num, by norm_num⟩, by decide +kernel⟩
+
+/-- [T] `Triangle: Intersects<Line>` (through `to_polygon`), any triangle. -/
+theorem triLine_iff_point_set (a b c x y : Pt) :
+    polyLine (triPoly a b c) x y = true ↔
+      ∃ p, Geo.Proofs.Kernel.SegMem p x y ∧ locate (.triangle a b c) p ≠ .outside :=
+  Geo.Proofs.C02X.triLine_iff a b c x y
+
+/-- [T] `Rect: Intersects<Rect>`, both of positive width and height: not separated along an axis ⇔ a common point. -/
+theorem rectRect_iff_point_set (amn amx bmn bmx : Pt) (hax : amn.x < amx.x) (hay : amn.y < amx.y)
+    (hbx : bmn.x < bmx.x) (hby : bmn.y < bmx.y) :
+    rectRect amn amx bmn bmx = true ↔
+      ∃ p, locate (.rect amn amx) p ≠ .outside ∧ locate (.rect bmn bmx) p ≠ .outside :=
+  Geo.Proofs.C02X.rectRect_iff amn amx bmn bmx hax hay hbx hby
+
+example : rectRect ⟨0, 0⟩ ⟨2, 2⟩ ⟨2, 2⟩ ⟨3, 3⟩ = true :=
+  (rectRect_iff_point_set _ _ _ _ (by norm_num) (by norm_num) (by norm_num) (by norm_num)).mpr
+    ⟨⟨2, 2⟩, by decide +kernel, by decide +kernel⟩
+
+/-- [T] **`intersects(a, b)` ⇔ `a` and `b` have a common point, for every pair of geometries of the validity domain in
+which one operand has no areal member** (`thin`: Point, Line, LineString, MultiPoint, MultiLineString, collections of
+these; the other operand is arbitrary — Polygon with holes, MultiPolygon, Rect, Triangle, nested collections). Every impl on
+the path is covered: the blanket impls with their bounding-box early returns, the symmetric impls, the kernels. -/
+theorem intersectsM_thin_iff_common (a b : Geom) (ha : inDomain a = true) (hb : inDomain b = true)
+    (ht : Geo.Proofs.C02X.thin a = true ∨ Geo.Proofs.C02X.thin b = true) :
+    intersectsM a b = true ↔ ∃ p, locate a p ≠ .outside ∧ locate b p ≠ .outside :=
+  Geo.Proofs.C02X.intersectsM_common a b ha hb ht
+
+/-- [T] … **hence `intersects(a, b)` is the mask "not `FF*FF****`" on the DE-9IM specification of the pair** (76 of the
+100 ordered type pairs; see the table in GeoProofs/Lemmas/C02XTable.lean). -/
+theorem intersectsM_thin_eq_spec (a b : Geom) (ha : inDomain a = true) (hb : inDomain b = true)
+    (ht : Geo.Proofs.C02X.thin a = true ∨ Geo.Proofs.C02X.thin b = true) :
+    intersectsM a b = Gen.isIntersects (relateSpec a b) :=
+  Geo.Proofs.C02X.intersectsM_thin_eq_spec a b ha hb ht
+
+example : intersectsM (.multiPolygon [⟨[⟨0, 0⟩, ⟨10, 0⟩, ⟨10, 10⟩, ⟨0, 10⟩, ⟨0, 0⟩], [[⟨2, 2⟩, ⟨8, 2⟩, ⟨8, 8⟩, ⟨2, 8⟩, ⟨2, 2⟩]]⟩])
+      (.multiLineString [[⟨3, 3⟩, ⟨7, 7⟩], [⟨12, 0⟩, ⟨12, 5⟩]]) =
+    Gen.isIntersects (relateSpec
+      (.multiPolygon [⟨[⟨0, 0⟩, ⟨10, 0⟩, ⟨10, 10⟩, ⟨0, 10⟩, ⟨0, 0⟩], [[⟨2, 2⟩, ⟨8, 2⟩, ⟨8, 8⟩, ⟨2, 8⟩, ⟨2, 2⟩]]⟩])
+      (.multiLineString [[⟨3, 3⟩, ⟨7, 7⟩], [⟨12, 0⟩, ⟨12, 5⟩]])) :=
+  intersectsM_thin_eq_spec _ _ (by decide +kernel) (by decide +kernel) (Or.inr rfl)
+
+example : intersectsM (.lineString [⟨-1, 1⟩, ⟨1, 1⟩, ⟨1, 5⟩]) (.collection [.rect ⟨0, 0⟩ ⟨2, 2⟩, .triangle ⟨4, 0⟩ ⟨6, 0⟩ ⟨4, 2⟩]) =
+    Gen.isIntersects (relateSpec (.lineString [⟨-1, 1⟩, ⟨1, 1⟩, ⟨1, 5⟩])
+      (.collection [.rect ⟨0, 0⟩ ⟨2, 2⟩, .triangle ⟨4, 0⟩ ⟨6, 0⟩ ⟨4, 2⟩])) :=
+  intersectsM_thin_eq_spec _ _ (by decide +kernel) (by decide +kernel) (Or.inl rfl)
+
+/-- [T] … and `intersects` is symmetric on these pairs. -/
+theorem intersectsM_thin_symm (a b : Geom) (ha : inDomain a = true) (hb : inDomain b = true)
+    (ht : Geo.Proofs.C02X.thin a = true ∨ Geo.Proofs.C02X.thin b = true) :
+    intersectsM a b = intersectsM b a :=
+  Geo.Proofs.C02X.intersectsM_thin_symm a b ha hb ht
+
+example : intersectsM (.triangle ⟨0, 0⟩ ⟨4, 0⟩ ⟨0, 4⟩) (.multiPoint [⟨1, 1⟩, ⟨9, 9⟩]) =
+    intersectsM (.multiPoint [⟨1, 1⟩, ⟨9, 9⟩]) (.triangle ⟨0, 0⟩ ⟨4, 0⟩ ⟨0, 4⟩) :=
+  intersectsM_thin_symm _ _ (by decide +kernel) (by decide +kernel) (Or.inr rfl)
+
+/-- [T] Rect × Rect, both of positive width and height: the mask on the specification. -/
+theorem intersectsM_rect_rect_eq_spec (amn amx bmn bmx : Pt) (ha : inDomain (.rect amn amx) = true)
+    (hb : inDomain (.rect bmn bmx) = true) :
+    intersectsM (.rect amn amx) (.rect bmn bmx) = Gen.isIntersects (relateSpec (.rect amn amx) (.rect bmn bmx)) :=
+  Geo.Proofs.C02X.intersectsM_rect_rect_eq_spec amn amx bmn bmx ha hb
+
+example : intersectsM (.rect ⟨0, 0⟩ ⟨2, 2⟩) (.rect ⟨2, 1⟩ ⟨3, 3⟩) =
+    Gen.isIntersects (relateSpec (.rect ⟨0, 0⟩ ⟨2, 2⟩) (.rect ⟨2, 1⟩ ⟨3, 3⟩)) :=
+  intersectsM_rect_rect_eq_spec _ _ _ _ (by decide +kernel) (by decide +kernel)
+
+/-- [T] the fifteen remaining `intersects` cells — the pairs of areal types other than Rect × Rect — all run the
+`Polygon × Polygon` body, through `to_polygon` for Rect and Triangle ([C] only beyond the shortcut below). -/
+theorem intersectsM_areal_dispatch (p q : Poly) (mn mx t0 t1 t2 u0 u1 u2 : Pt) :
+    intersectsM (.polygon p) (.polygon q) = polyPoly q p ∧
+    intersectsM (.polygon p) (.rect mn mx) = polyPoly p (rectPoly mn mx) ∧
+    intersectsM (.polygon p) (.triangle t0 t1 t2) = polyPoly p (triPoly t0 t1 t2) ∧
+    intersectsM (.rect mn mx) (.polygon p) = polyPoly p (rectPoly mn mx) ∧
+    intersectsM (.rect mn mx) (.triangle t0 t1 t2) = polyPoly (triPoly t0 t1 t2) (rectPoly mn mx) ∧
+    intersectsM (.triangle t0 t1 t2) (.polygon p) = polyPoly p (triPoly t0 t1 t2) ∧
+    intersectsM (.triangle t0 t1 t2) (.rect mn mx) = polyPoly (triPoly t0 t1 t2) (rectPoly mn mx) ∧
+    intersectsM (.triangle t0 t1 t2) (.triangle u0 u1 u2) = polyPoly (triPoly u0 u1 u2) (triPoly t0 t1 t2) := by
+  obtain ⟨h1, h2, h3, h4, h5, _, h7, h8, h9⟩ := Geo.Proofs.C02X.dispatch_areal p q mn mx mn mx t0 t1 t2 u0 u1 u2
+  exact ⟨h1, h2, h3, h4, h5, h7, h8, h9⟩
+
+/-- [T] **the early return of `Polygon: Intersects<Polygon>` loses nothing**, also through `to_polygon`: when the
+bounding boxes are disjoint `polyPoly` is `false` and the two polygons have no common point. Operands: any two of
+{polygon of the domain, `Rect::to_polygon`, `Triangle::to_polygon`} (`DomFacts`: Rects valid, hole coordinates inside the
+shell's box, rings closed). -/
+theorem polyPoly_shortcut_sound (p q : Poly) (fp : Geo.Proofs.C02X.DomFacts (.polygon p))
+    (fq : Geo.Proofs.C02X.DomFacts (.polygon q)) (h : disjointBB (.polygon p) (.polygon q) = true) :
+    polyPoly p q = false ∧ ∀ x, locate (.polygon p) x = .outside ∨ locate (.polygon q) x = .outside :=
+  Geo.Proofs.C02X.polyPoly_shortcut p q fp fq h
+
+example : polyPoly (triPoly ⟨0, 0⟩ ⟨2, 0⟩ ⟨0, 2⟩) (rectPoly ⟨3, 3⟩ ⟨5, 5⟩) = false :=
+  (polyPoly_shortcut_sound _ _ (Geo.Proofs.C02X.domFacts_triPoly _ _ _) (Geo.Proofs.C02X.domFacts_rectPoly _ _)
+    (by decide +kernel)).1
+
+/-- [T] the 66 pairs whose `Contains` impl is `impl_contains_from_relate!` (`Geo.Proofs.C02X.viaRelate`): the mask
+`T*****FF*` on the matrix, by definition (that `relate` computes the specification's matrix is C01). -/
+theorem containsM_via_relate (a b : Geom) (h : Geo.Proofs.C02X.viaRelate a b = true) :
+    containsM a b = Gen.isContains (relateSpec a b) :=
+  Geo.Proofs.C02X.containsM_via_relate a b h
+
+example : containsM (.polygon ⟨[⟨0, 0⟩, ⟨4, 0⟩, ⟨4, 4⟩, ⟨0, 4⟩, ⟨0, 0⟩], []⟩) (.lineString [⟨1, 1⟩, ⟨2, 2⟩]) =
+    Gen.isContains (relateSpec (.polygon ⟨[⟨0, 0⟩, ⟨4, 0⟩, ⟨4, 4⟩, ⟨0, 4⟩, ⟨0, 0⟩], []⟩) (.lineString [⟨1, 1⟩, ⟨2, 2⟩])) :=
+  containsM_via_relate _ _ rfl
+
+/-- [T] `MultiPolygon: Contains<X>` for linear / areal `X` (`rhs.relate(self).is_within()`): the mask `T*****FF*` on the
+matrix of `(self, rhs)`. -/
+theorem containsM_multiPolygon_via_relate (ps : List Poly) (b : Geom)
+    (hb : match b with | .point _ | .multiPoint _ => false | _ => true) :
+    containsM (.multiPolygon ps) b = Gen.isContains (relateSpec (.multiPolygon ps) b) :=
+  Geo.Proofs.C02X.containsM_multiPolygon_via_relate ps b hb
+
+example : containsM (.multiPolygon [⟨[⟨0, 0⟩, ⟨4, 0⟩, ⟨4, 4⟩, ⟨0, 4⟩, ⟨0, 0⟩], []⟩]) (.line ⟨1, 1⟩ ⟨2, 2⟩) =
+    Gen.isContains (relateSpec (.multiPolygon [⟨[⟨0, 0⟩, ⟨4, 0⟩, ⟨4, 4⟩, ⟨0, 4⟩, ⟨0, 0⟩], []⟩]) (.line ⟨1, 1⟩ ⟨2, 2⟩)) :=
+  containsM_multiPolygon_via_relate _ _ rfl
 
 /-! ### TRAN: the `CoordinatePosition` accumulator, clause by clause, is the term read off the Rust bodies -/
 
